@@ -2381,13 +2381,94 @@ def c17_script(rng, steps):
     return S.text()
 
 
+def api_graph_scripts(work, nd, nf, ns):
+    """spec -> code, exhaustively: TLC explores MddApiGen (the bounded lifecycle
+    model with the ghost variable `last` = the driver command of the step) and
+    dumps its state graph; every transition u -> v becomes one execution: the
+    commands along a shortest path to u, then the command of v, then `obs`.
+    Executions that are a strict prefix of another are dropped (their
+    transitions are replayed by the longer one).  Returns (scripts, stats)."""
+    import re as _re
+    import collections
+    os.makedirs(work, exist_ok=True)
+    cfg = os.path.join(V.SPEC, 'MddApiGen_run_%d%d%d.cfg' % (nd, nf, ns))
+    dot = os.path.join(work, 'apigraph')
+    with open(cfg, 'w') as f:
+        f.write('SPECIFICATION GSpec\nCONSTANTS\n  ND = %d\n  NF = %d\n  NS = %d\nINVARIANT Inv\nCHECK_DEADLOCK FALSE\n' % (nd, nf, ns))
+    try:
+        rc, out = V.run_tlc('MddApiGen.tla', cfg, os.path.join(work, 'md-apigen'), workers=8, xmx='8g',
+                            extra=['-dump', 'dot', dot], timeout=1800)
+    finally:
+        os.remove(cfg)
+    if rc != 0:
+        raise Machinery('TLC failed on MddApiGen: ' + out[-1500:])
+    nodes, edges, init = {}, collections.defaultdict(list), None
+    node_re = _re.compile(r'^(-?\d+) \[label="/\\\\ last = \\"([^"\\]*)\\"')
+    edge_re = _re.compile(r'^(-?\d+) -> (-?\d+) ')
+    with open(dot + '.dot') as f:
+        for line in f:
+            m = edge_re.match(line)
+            if m:
+                edges[m.group(1)].append(m.group(2))
+                continue
+            m = node_re.match(line)
+            if m:
+                nodes[m.group(1)] = m.group(2)
+                if 'style = filled' in line:
+                    init = m.group(1)
+    os.remove(dot + '.dot')
+    if init is None or not nodes:
+        raise Machinery('could not parse the state graph of MddApiGen')
+    par = {init: None}
+    q = collections.deque([init])
+    while q:
+        u = q.popleft()
+        for v in edges[u]:
+            if v not in par:
+                par[v] = u
+                q.append(v)
+    if len(par) != len(nodes):
+        raise Machinery('state graph of MddApiGen is not connected from its initial state')
+
+    def path(u):
+        p = []
+        while par[u] is not None:
+            p.append(nodes[u])
+            u = par[u]
+        return p[::-1]
+
+    ntrans = 0
+    S = set()
+    for u in list(edges):
+        pu = path(u)
+        for v in edges[u]:
+            ntrans += 1
+            S.add(tuple(pu + [nodes[v]]))
+    pref = set()
+    for sc in S:
+        for k in range(1, len(sc)):
+            pref.add(sc[:k])
+    final = sorted(sc for sc in S if sc not in pref)
+    scripts = [('t%05d' % i, '\n'.join(sc) + '\nobs\n') for i, sc in enumerate(final)]
+    return scripts, dict(states=len(nodes), transitions=ntrans, executions=len(scripts), bounds=(nd, nf, ns))
+
+
 @plan('C17')
 def plan_c17(tier, seed, rng):
     scripts = [('y%03d' % i, c17_script(rng, 160 if tier == 'thorough' else 90)) for i in range(40 if tier == 'thorough' else 10)]
+    # every transition of the bounded lifecycle model, replayed in the library
+    gwork = os.path.join(VERIF, 'work', 'C17-gen-%s' % tier)
+    gstats = []
+    for (nd, nf, ns) in ([(1, 2, 2)] if tier == 'thorough' else [(1, 1, 2)]):
+        gs, st = api_graph_scripts(gwork, nd, nf, ns)
+        scripts += [('b%d%d%d_%s' % (nd, nf, ns, nm), text) for nm, text in gs]
+        gstats.append(st)
+    shutil.rmtree(gwork, ignore_errors=True)
     return dict(
         scripts=scripts, validators=[API, STORE], tags={'C17', 'C16', 'HELD', 'C06'}, asan=True,
         mc=[('MddApiMC.tla', 'ApiLifeMC3.cfg' if tier == 'thorough' else 'ApiLifeMC.cfg', {})],
-        rule='model: every order of initialise / create domain / create forest / new, copy, assign, attach, delete edge / build / union / destroy forest / '
+        rule='spec -> code: every transition of the bounded lifecycle model MddApiGen %s is replayed through the library (one execution per transition: a shortest path to its source state, the step, an observation of all edges) and validated; ' % '; '.join('bounds ND,NF,NS=%s: %d states, %d transitions, %d executions' % (st['bounds'], st['states'], st['transitions'], st['executions']) for st in gstats) +
+             'model: every order of initialise / create domain / create forest / new, copy, assign, attach, delete edge / build / union / destroy forest / '
              'destroy domain / clean up within 2 domains, 2 (thorough 3) forests and 2 (3) edges, with invariants AttachedIsLive, FidUnique and action '
              'properties FidMonotone, FidNeverReused, OtherDomainsUntouched, ErrorAtomic; implementation: seeded random lifecycles over up to 3 domains and 5 '
              'forests (boolean, integer and EV+ sets) with compute tables populated by operations inside and across forests of a domain, forests and domains '
